@@ -10,7 +10,7 @@ RULE = ("the C01 scenario space with pre-existing counter xattrs (0, 1, 7, 41, 1
 
 
 def gen(rng, tier):
-    return _kill.gen(rng, tier, PROP, [("base", 80), ("nonint", 14), ("stale", 6)])
+    return _kill.gen(rng, tier, PROP, [("base", 72), ("nonint", 12), ("stale", 6), ("zero", 10)])
 
 
 def nontrivial(s, t, v):
